@@ -445,7 +445,17 @@ impl Indexable for ast::BangOperator {
                     let Some(typ) = typ else {
                         continue;
                     };
-                    if !typ.can_be_casted_to(&ctx.symbol_map, &list1_type) {
+                    // the element type of a list literal is the type of its first element, which
+                    // may be narrower than the other operand's (two defs of one class): the
+                    // operands agree if either converts to the other, or both hold records
+                    let both_records = matches!(
+                        (list1_type.element_typ(), typ.element_typ()),
+                        (Some(Type::Record(_, _)), Some(Type::Record(_, _)))
+                    );
+                    if !typ.can_be_casted_to(&ctx.symbol_map, &list1_type)
+                        && !list1_type.can_be_casted_to(&ctx.symbol_map, &typ)
+                        && !both_records
+                    {
                         ctx.error(range, format!("expected {list1_type}, found {typ}"));
                     }
                 }
